@@ -264,8 +264,31 @@ func (ci *consumerInfo) successReturn(b *ssa.BasicBlock) bool {
 		if r, ok := b.Instrs[len(b.Instrs)-1].(*ssa.Return); ok && len(r.Results) >= 1 {
 			last := len(r.Results) - 1
 			if errorLike(b.Parent().Signature.Results().At(last).Type()) {
-				k, isK := r.Results[last].(*ssa.Const)
-				return isK && k.IsNil() // `return …, nil`: no error
+				ev := r.Results[last]
+				if k, isK := ev.(*ssa.Const); isK {
+					return k.IsNil() // `return …, nil`: no error
+				}
+				// a computed error: non-nil when it was just built, or is known non-nil here; otherwise it may be nil
+				// (`return filepath.Abs(p)` succeeds whenever Abs does)
+				inner := ev
+				if mi, isMI := inner.(*ssa.MakeInterface); isMI {
+					inner = mi.X
+				}
+				if c, isC := inner.(*ssa.Call); isC && c.Call.StaticCallee() != nil {
+					switch fnFullName(c.Call.StaticCallee()) {
+					case "errors.New", "fmt.Errorf":
+						return false
+					}
+					if shortPkg(fnPkgPath(c.Call.StaticCallee())) == "fail" {
+						return false
+					}
+				}
+				for _, f := range expandFacts(factsAt(b)) {
+					if nonNilFact(f, ev) {
+						return false
+					}
+				}
+				return true
 			}
 		}
 	}
